@@ -140,6 +140,12 @@ def Buffered.next (p : ChunkParams) (c : Buffered) : (Nat × Bytes) × Buffered 
   let k := cutRoll p c.buf
   ((c.start, c.buf.take k), { c with buf := c.buf.drop k, start := c.start + k })
 
+/-- `Chunker.Advance(n)` over a seekable reader (a file, `bytes.Reader`): bytes still in the buffer
+    count towards the move; what is left of it is skipped in the reader with `Seek` -/
+def Buffered.advance (c : Buffered) (n : Nat) : Buffered :=
+  if n ≤ c.buf.length then { c with start := c.start + n, buf := c.buf.drop n }
+  else { c with start := c.start + n, buf := [], r := { c.r with data := c.r.data.drop (n - c.buf.length) } }
+
 /-- all chunks the buffered chunker produces -/
 def Buffered.all (p : ChunkParams) : Nat → Buffered → List (Nat × Nat)
   | 0, _ => []
